@@ -12,6 +12,7 @@
  */
 #include "ctx.h"
 #include "ref_lex.h"
+#include "golden_units.h"
 
 enum { R_INT32, R_UINT64, R_DOUBLE, R_BOOL, R_CHOICE, R_NUMBER, R_CHARS, R_COPYTEXT, R_BLOCK, R_ARRAY, NREADER };
 static const char * rname[NREADER] = {"Int32", "UInt64", "Double", "Bool", "Choice", "Number", "Characters", "CopyText", "ArbitraryBlock", "ArrayInt32[3]"};
@@ -478,6 +479,27 @@ int main(int argc, char ** argv) {
             }
         }
         tc_free(&TF);
+    }
+    {   /* every unit suffix of IEEE 488.2 table 7-1 that the pinned library knows (golden_units.h, not the library's own table) is a
+         * KNOWN suffix: delivered with its unit and multiplier by the number reader, alone and as an item of a list; the same name with
+         * one more letter is unknown (-131) */
+        int g;
+        for (g = 0; golden_units[g].name; g++) {
+            char msg[64], exp[160]; int ml, v;
+            if (!MC_CASE()) continue;
+            mc_case_tag = "golden-unit"; mc_case_s[0] = (const unsigned char *) golden_units[g].name; mc_case_n[0] = strlen(golden_units[g].name);
+            for (v = 0; v < 3; v++) {
+                tc_reinit(&T, cmds); nsig = v == 1 ? 2 : 1; sig[0].reader = R_NUMBER; sig[0].mandatory = 1; sig[1].reader = R_INT32; sig[1].mandatory = 1; h_ret_err = 0; h_stop = 0; h_own = 0;
+                if (v == 0) { ml = sprintf(msg, "CMD 2%s\n", golden_units[g].name); sprintf(exp, "H;r1=%.17g/u%d/b10;X0;", 2 * golden_units[g].mult, (int) golden_units[g].unit); }
+                else if (v == 1) { ml = sprintf(msg, "CMD 2 %s , 7\n", golden_units[g].name); sprintf(exp, "H;r1=%.17g/u%d/b10;r1=7;X0;", 2 * golden_units[g].mult, (int) golden_units[g].unit); }
+                else { ml = sprintf(msg, "CMD 2 %sQ\n", golden_units[g].name); sprintf(exp, "H;E-131;r0;X0;"); }
+                tr_reset();
+                SCPI_Input(&T.ctx, msg, ml);
+                n_cases++;
+                if (strcmp(TR, exp)) mc_viol(v == 2 ? "c05/suffix-131/golden" : "c05/known-suffix/golden", "message [%s] with a number reader%s: trace [%s], expected [%s]", mc_e(msg, (size_t) ml), v == 1 ? " and an integer reader" : "", mc_es(TR), exp);
+                else n_wellformed++;
+            }
+        }
     }
     if (mc_shard == 0) {
         mc_sample("signature {Int32!, Choice?} handler OK: message [CMD 1 , XYZ\\n] -> r1=1; E-224 r0; result FALSE");
